@@ -131,3 +131,99 @@ Proof.
       apply in_or_app. right. left. reflexivity.
     + injection EL as _ EL. apply (IH E l1 i yi xi l2 j yj xj l3 EL).
 Qed.
+
+(* ---------- the whole comparator on an op-0 line (InvCDF of a harness-defined piecewise distribution) ----------
+   An accepted verdict (code 0 = ok, 1 = borderline) means: the line parses into a WELL-FORMED cdf, Bounds and
+   levels, every level satisfies the specification below, and the results are non-decreasing in y. *)
+Definition level_spec (pw : pwf) (bl bh : Q) (it : xreal * Z * xreal) : Prop :=
+  let '(y, st, obs) := it in
+  match y with
+  | XNaN => True                                       (* nothing is demanded for a NaN argument *)
+  | XInf _ => st = 0%Z /\ obs = XNaN
+  | XFin yq =>
+      st = 0%Z /\
+      ((yq < 0 \/ 1 < yq) -> obs = XNaN) /\
+      (yq == 0 -> (pw_cdf pw bl == 0 /\ exists o, obs = XFin o /\ o == bl) \/ (~ pw_cdf pw bl == 0 /\ obs = XInf true)) /\
+      (yq == 1 -> (pw_cdf pw bh == 1 /\ exists o, obs = XFin o /\ o == bh) \/ (~ pw_cdf pw bh == 1 /\ obs = XInf false)) /\
+      (0 < yq -> yq < 1 -> exists q, least_ge (pw_cdf pw) yq q /\
+         ((- LAST < q /\ q <= LAST /\ exists o, obs = XFin o /\ Qabs (o - q) <= tol_x pw yq q /\ yq - eps_level <= pw_cdf pw o)
+          \/ (LAST < q /\ obs = XInf false) \/ (q <= - LAST /\ obs = XInf true)))
+  end.
+
+Lemma check_pw_y_level : forall pw bl bh y st obs tag, pw_wf pw ->
+  check_pw_y pw bl bh y st obs = (tag, None) -> level_spec pw bl bh (y, st, obs).
+Proof.
+  intros pw bl bh y st obs tag W E. destruct y as [|b|yq]; cbn [level_spec].
+  - exact I.
+  - unfold check_pw_y in E. destruct ((st =? 0)%Z && is_nan obs) eqn:C; [|discriminate E].
+    apply andb_prop in C. destruct C as [St N]. apply Z.eqb_eq in St. apply xeq_nan in N. auto.
+  - destruct (check_pw_y_sound_special pw bl bh yq st obs tag E) as (S1 & S2 & S3).
+    assert (St : st = 0%Z).
+    { destruct (Qlt_le_dec yq 0) as [C|C]; [apply S1; auto|].
+      destruct (Qlt_le_dec 1 yq) as [C'|C']; [apply S1; auto|].
+      destruct (Qeq_dec yq 0) as [C0|C0]; [apply S2; assumption|].
+      destruct (Qeq_dec yq 1) as [C1|C1]; [apply S3; assumption|].
+      apply (check_pw_y_sound pw bl bh yq st obs tag W); try assumption; lra. }
+    split; [assumption|]. split; [intro H; apply S1; assumption|].
+    split; [intro H; apply S2; assumption|]. split; [intro H; apply S3; assumption|].
+    intros H0 H1. apply (check_pw_y_sound pw bl bh yq st obs tag W H0 H1 E).
+Qed.
+
+Lemma run_pw_items_sound : forall pw bl bh, pw_wf pw -> forall items idx tag t,
+  run_pw_items pw bl bh items idx tag = (t, None) -> Forall (level_spec pw bl bh) items.
+Proof.
+  intros pw bl bh W. induction items as [|[[y st] o] rest IH]; intros idx tag t E; [constructor|].
+  cbn [run_pw_items] in E. destruct (check_pw_y pw bl bh y st o) as [t0 [dg|]] eqn:C; [discriminate E|].
+  constructor; [apply (check_pw_y_level pw bl bh y st o t0 W C) | apply (IH _ _ _ E)].
+Qed.
+
+(* non-decreasing in y over the regular levels of the case *)
+Definition levels_ordered (items : list (xreal * Z * xreal)) : Prop :=
+  forall l1 i yi xi l2 j yj xj l3, mono_items 0 items = l1 ++ (i, yi, xi) :: l2 ++ (j, yj, xj) :: l3 ->
+  (yi <= yj -> xr_leb 0 xi xj = true) /\ (yj <= yi -> xr_leb 0 xj xi = true).
+
+Lemma with_mono_none : forall tol items r t, with_mono tol items r = (t, None) ->
+  r = (t, None) /\ mono_check tol (mono_items 0 items) = None.
+Proof.
+  intros tol items [tag [d|]] t E; cbn [with_mono] in E; [discriminate E|].
+  destruct (mono_check tol (mono_items 0 items)) as [[i j]|]; [discriminate E|]. auto.
+Qed.
+
+Lemma finish_accepted : forall r c tag pos diag, finish r = verdict c tag pos diag -> (c = 0 \/ c = 1)%Z ->
+  exists t, r = (t, None).
+Proof.
+  intros [t [[idx dg]|]] c tag pos diag E Hc; [|eauto]. exfalso. cbn [finish] in E.
+  assert (X : forall code, verdict code t idx dg = verdict c tag pos diag -> code = c) by (unfold verdict; intros; congruence).
+  destruct dg as [|d0 dg'].
+  - apply X in E. unfold V_MISMATCH in E. lia.
+  - destruct dg' as [|d1 dg'']; [destruct (d0 =? 99)%Z eqn:D|].
+    all: try (destruct d0 as [|p|p]; try (apply X in E; unfold V_MISMATCH, V_MALFORMED in E; lia)).
+    all: try (repeat (destruct p as [p|p|]; try (apply X in E; unfold V_MISMATCH, V_MALFORMED in E; lia))).
+Qed.
+
+Theorem check_C07_op0_sound : forall rest c tag pos diag,
+  check_C07 (7 :: 0 :: rest)%Z = verdict c tag pos diag -> (c = 0 \/ c = 1)%Z ->
+  exists pw bl bh items,
+    (do pw <- plist p_knot; do bl <- pQ; do bh <- pQ; do items <- plist p_item; pend (pw, bl, bh, items)) rest = Some ((pw, bl, bh, items), []) /\
+    pw_wf pw /\ Forall (level_spec pw bl bh) items /\ levels_ordered items.
+Proof.
+  intros rest c tag pos diag E Hc. cbn [check_C07] in E.
+  destruct ((do pw <- plist p_knot; do bl <- pQ; do bh <- pQ; do items <- plist p_item; pend (pw, bl, bh, items)) rest)
+    as [[[[[pw bl] bh] items] tl]|] eqn:P.
+  2: { exfalso. unfold verdict in E. injection E as E _. unfold V_MALFORMED in E. lia. }
+  destruct (valid_pw pw) eqn:V; cbn [negb] in E.
+  2: { exfalso. unfold verdict in E. injection E as E _. unfold V_MALFORMED in E. lia. }
+  destruct (finish_accepted _ _ _ _ _ E Hc) as (t & R).
+  destruct (with_mono_none _ _ _ _ R) as (R1 & R2).
+  assert (W : pw_wf pw) by (apply pw_wfb_sound; exact V).
+  assert (TL : tl = []).
+  { unfold pbind in P.
+    destruct (plist p_knot rest) as [[a0 r0]|]; [|discriminate P].
+    destruct (pQ r0) as [[a1 r1]|]; [|discriminate P].
+    destruct (pQ r1) as [[a2 r2]|]; [|discriminate P].
+    destruct (plist p_item r2) as [[a3 r3]|]; [|discriminate P].
+    unfold pend in P. destruct r3; [|discriminate P]. injection P as _ _ _ _ <-. reflexivity. }
+  subst tl. exists pw, bl, bh, items. split; [reflexivity|]. split; [assumption|].
+  split; [apply (run_pw_items_sound pw bl bh W items 0%Z 0%Z t R1)|].
+  intros l1 i yi xi l2 j yj xj l3 EL. apply (mono_check_sound 0 _ R2 l1 i yi xi l2 j yj xj l3 EL).
+Qed.
